@@ -38,11 +38,17 @@ ID = "C10"
 LEVEL = "model_checking"
 RULE = ("part A: every case of a fixed catalogue of competing-obfuscator contents x every one of the n! iteration orders "
         "of the applied obfuscator names (forced hashes, order taken is measured) + the same cases under real "
-        "PYTHONHASHSEED=k in child interpreters; an execution is non-trivial when >= 2 obfuscators changed the same line. "
+        "PYTHONHASHSEED=k in child interpreters (full output text compared) + every iteration order of every set built "
+        "through the name `set` inside the obfuscator modules (schedule-driven stand-in, stateless DFS over the choice "
+        "points); an execution is non-trivial when >= 2 obfuscators changed the same line. "
         "part B: every content of <= L lines over 6 line kinds x every listed configuration x 3 entry points; "
         "a case is non-trivial when cleaning dropped or rewrote at least one line")
 ASSUMPTIONS = ["CPython iterates a small set by slot index, so n keys with forced hashes 0..n-1 iterate in hash order; "
                "checked per execution against set(keys) itself and against the logged call order",
+               "set order inside an obfuscator is owned only for sets built by calling the name `set` in insights.cleaner."
+               "{hostname,ip,keyword,mac,password,pattern,filters,utilities} with <= 5 elements; equal contents iterate equally "
+               "within one execution; set displays / comprehensions, other hash containers and other modules are reached by "
+               "the bounded real-seed sweep only",
                "family classification only (not the verdict): a real-seed output equal to the forced-order output for the "
                "order that seed produced is attributed to the obfuscator order, anything else to other seed dependence",
                "part A contents are a hand-made catalogue (one or more per pair of obfuscators) plus, in the thorough "
@@ -50,10 +56,10 @@ ASSUMPTIONS = ["CPython iterates a small set by slot index, so n keys with force
                "blank means the empty string, as in the code; whitespace-only lines count as non-blank",
                "bounded: no counterexample within the stated bounds, nothing more"]
 BOUNDS = {"quick": {"orders_per_case": "all n! (n <= 6)", "hash_seeds": 16, "generated_keyword_cases": False,
-                    "max_lines": 4, "line_kinds": 6, "clean_content_configs": 60, "clean_file_configs": 5,
+                    "inside_set_orders": "all n! per set built via set() in the obfuscator modules (n <= 5)", "max_lines": 4, "line_kinds": 6, "clean_content_configs": 60, "clean_file_configs": 5,
                     "provider_configs": 3},
           "thorough": {"orders_per_case": "all n! (n <= 6)", "hash_seeds": 64, "generated_keyword_cases": True,
-                       "max_lines": 5, "line_kinds": 6, "clean_content_configs": 60, "clean_file_configs": 5,
+                       "inside_set_orders": "all n! per set built via set() in the obfuscator modules (n <= 5)", "max_lines": 5, "line_kinds": 6, "clean_content_configs": 60, "clean_file_configs": 5,
                        "provider_configs": 4}}
 CAP_S = {"quick": 120, "thorough": 1200}
 
@@ -129,6 +135,22 @@ def catalogue():
         _c("control:keyword-in-keyword", ["x alphabet y alpha z"], ["alpha", "alphabet"]),
         _c("control:keyword-in-keyword", ["x alphabet y alpha z"], ["alphabet", "alpha"]),
         _c("control:no-keyword-configured", ["host web01.corp.test 10.1.1.1 password=abc"], []),
+        # several tokens of ONE kind on one line: any seed dependence would sit inside that obfuscator (numbering /
+        # replacement order of equal-length names and addresses); decided by the in-process set schedules and the seeds
+        _c("inside:two-new-hostnames-equal-length", ["route via gw-a.corp.test gw-b.corp.test"]),
+        _c("inside:three-new-hostnames-equal-length", ["route via gw-a.corp.test gw-b.corp.test gw-c.corp.test"]),
+        _c("inside:five-new-hostnames-equal-length",
+           ["# peers of web01.corp.test", "route via gw-a.corp.test gw-b.corp.test gw-c.corp.test gw-d.corp.test gw-e.corp.test",
+            "then gw-c.corp.test again"]),
+        _c("inside:new-hostnames-mixed-length", ["via gw-a.corp.test gw-b.corp.test a.gw-a.corp.test db.corp.test gw-a.corp.test"]),
+        _c("inside:two-ipv4-equal-length", ["peers 10.1.1.1 10.1.1.2"]),
+        _c("inside:three-ipv4-equal-length", ["peers 10.1.1.3 10.1.1.1 10.1.1.2 and 10.1.1.3", "later 10.1.1.2"]),
+        _c("inside:two-ipv4-equal-length", ["tcp        0      0 10.1.2.3:22            10.1.2.4:5000           ESTABLISHED"], width=True),
+        _c("inside:two-ipv6", ["inet6 fe80::1 fe80::2 2001:db8::1 2001:db8::2"]),
+        _c("inside:two-macs", ["ether aa:bb:cc:dd:ee:ff 11:22:33:44:55:66 aa-bb-cc-dd-ee-ff"]),
+        _c("inside:two-keywords", ["x KWA KWB y KWB KWA"], ["KWA", "KWB"]),
+        _c("inside:three-keywords", ["x KWC KWA KWB y"], ["KWB", "KWC", "KWA"]),
+        _c("inside:two-passwords", ["password=abc123 password2=xyz789"]),
     ]
 
 
@@ -210,8 +232,9 @@ def explained_by_order(runs, a, b):
 
 
 def check_a(desc, runs=None, seed_runs=None):
-    """One part-A case with two forced orders and/or two hash seeds that must give the same output.
-    desc = {"part": "A", "case": {...}, "orders": [o1, o2]?, "seeds": [k1, k2]?}.
+    """One part-A case with two forced orders and/or two set schedules inside the obfuscators and/or two hash
+    seeds that must give the same output.
+    desc = {"part": "A", "case": {...}, "orders": [o1, o2]?, "inside": [choices1, choices2]?, "seeds": [k1, k2]?}.
     `runs` (the full forced table) and `seed_runs` ({seed: run_plain result}) are passed by the
     exploration to avoid re-executing; a replay recomputes them.  Returns [] or one violation."""
     case = desc["case"]
@@ -224,6 +247,14 @@ def check_a(desc, runs=None, seed_runs=None):
             via.append("forced-order")
             obs["forced"] = {"order_1": r1["observed"], "output_1": r1["out"], "order_2": r2["observed"], "output_2": r2["out"]}
     family = "hash-order"
+    if desc.get("inside"):
+        i1 = lib.run_inside(case, desc["inside"][0])
+        i2 = lib.run_inside(case, desc["inside"][1])
+        if _fp(i1["out"]) != _fp(i2["out"]):
+            via.append("inside-set-order")
+            obs["inside"] = {"set_schedule_1": desc["inside"][0], "output_1": i1["out"],
+                             "set_schedule_2": desc["inside"][1], "output_2": i2["out"],
+                             "where": "a set iterated inside insights/cleaner/{%s}.py" % ",".join(lib.INSIDE_MODULES[:4])}
     if desc.get("seeds"):
         k1, k2 = desc["seeds"]
         if seed_runs is None:
@@ -238,6 +269,8 @@ def check_a(desc, runs=None, seed_runs=None):
                 _, runs = forced_table(case)
             if not explained_by_order(runs, a, b):
                 family = "seed-dependent-beyond-obfuscator-order"
+    if "inside-set-order" in via and family != "hash-order" or via == ["inside-set-order"]:
+        family = "set-order-inside-obfuscator"
     if not via:
         return []
     if runs is None:
@@ -245,7 +278,8 @@ def check_a(desc, runs=None, seed_runs=None):
     pairs, _ = measured_pairs(runs)
     obs["distinct_outputs_over_all_forced_orders"] = len(set(_fp(r["out"]) for r in runs))
     feats = {"clause_family": family, "competing": case["label"], "via": "+".join(via), "pairs": ",".join(pairs)}
-    return [(CLAUSE_DET, "one output for every iteration order of the obfuscator table and every PYTHONHASHSEED", obs, feats)]
+    return [(CLAUSE_DET, "one output for every iteration order of the obfuscator table, every set order inside an obfuscator and every "
+             "PYTHONHASHSEED", obs, feats)]
 
 
 def run_a(unit, tier, res):
@@ -254,6 +288,7 @@ def run_a(unit, tier, res):
     seeds = seeds_for(tier)
     tables = {}
     witnesses = {}
+    inside_witnesses = {}
     for case in cases:
         names, runs = forced_table(case)
         tables[case["n"]] = runs
@@ -287,6 +322,25 @@ def run_a(unit, tier, res):
                 other = [r for r in runs if _fp(r["out"]) != _fp(first["out"])][0]
                 witness = [first["forced"], other["forced"]]
             witnesses[case["n"]] = witness
+        # ---- set iteration order inside the obfuscators, owned in-process -----------------------
+        iruns, complete = lib.explore_inside(case)
+        iouts = {}
+        for r in iruns:
+            iouts.setdefault(_fp(r["out"]), r["choices"])
+        res.traces += len(iruns)
+        res.evals += len(iruns)
+        res.stat("A_inside_set_schedules_executed", len(iruns))
+        res.stat("A_inside_cases_with_a_set_choice_point", 1 if len(iruns) > 1 else 0)
+        res.maxi("A_inside_max_set_schedules_of_one_case", len(iruns))
+        res.outcomes.add("A:inside:%d-schedules:%d-outputs" % (min(len(iruns), 2), len(iouts)))
+        if not complete:
+            res.exhaustive = False
+            res.notes.append("set schedules inside the obfuscators were capped for a case (more than %d elements in one set "
+                             "or more than 3000 schedules)" % lib.INSIDE_MAX_N)
+        if len(iouts) > 1:
+            res.stat("A_cases_with_more_than_one_output_inside")
+            ordered = sorted(iouts.values(), key=lambda ch: (len(ch), ch))
+            inside_witnesses[case["n"]] = ordered[:2]
     # ---- real hash seeds, one child interpreter per seed for the whole batch -------------------
     got = lib.run_children([case_core(c) for c in cases], seeds, parallel=8 if tier == "quick" else 4)
     for ci, case in enumerate(cases):
@@ -311,13 +365,15 @@ def run_a(unit, tier, res):
         seed_runs = None
         if case["n"] in witnesses:
             desc["orders"] = witnesses[case["n"]]
+        if case["n"] in inside_witnesses:
+            desc["inside"] = inside_witnesses[case["n"]]
         if len(outs) > 1:
             res.stat("A_cases_with_more_than_one_output_seeds")
             k1 = per_seed[0][0]
             k2 = [k for k, r in per_seed if _fp(r["out"]) != _fp(per_seed[0][1]["out"])][0]
             desc["seeds"] = [k1, k2]
             seed_runs = {k1: got[k1][ci], k2: got[k2][ci]}
-        if "orders" in desc or "seeds" in desc:
+        if "orders" in desc or "seeds" in desc or "inside" in desc:
             for clause, exp, obs, feats in check_a(desc, runs, seed_runs):
                 res.violation(clause, desc, exp, obs, feats)
 
@@ -662,9 +718,14 @@ TECHNIQUE = ("exhaustive enumeration of all n! iteration orders of the obfuscato
              "bounded exhaustive enumeration of line-kind sequences through clean_content, clean_file and provider write/dehydrate")
 LEVEL_TEXT = ("The only scheduling freedom in clean_content is the iteration order of one small set; every one of its <= 720 "
               "orders is executed for every catalogued competing content, so determinism is decided for these contents over all "
-              "hash seeds, not sampled; a sweep of real seeds confirms that nothing but that order depends on the seed. Order, "
+              "hash seeds, not sampled. Set iteration inside an obfuscator (numbering / replacement order of several host names, "
+              "addresses or keywords on one line) is owned the same way where the code builds the set by calling `set`: every "
+              "permutation of every such set (<= 5 elements) is executed. A sweep of real seeds, comparing the full output text, "
+              "covers whatever else could depend on the seed. Order, "
               "derivation and emptiness are decided for every content of <= 4 (quick) / <= 5 (thorough) lines over six line kinds "
               "and every listed configuration, on three entry points.")
 LEVEL_NOTE = ("Trusted: CPython small-set slot order (re-checked per execution); the catalogue of competing contents is hand-made "
-              "(at least one content per pair of obfuscators) - other contents are not covered; real seeds are a bounded sweep "
-              "(16 / 64); blank = empty string as in the code.")
+              "(at least one content per pair of obfuscators) - other contents are not covered; seed dependence inside an obfuscator is owned "
+              "in-process only for sets created through the name `set` in the cleaner sub-modules - set displays, comprehensions, "
+              "other containers and other modules are covered by the bounded real-seed sweep (16 / 64 seeds) only; blank = empty "
+              "string as in the code.")
